@@ -437,7 +437,7 @@ def _classify(info, rows1, rows2, n_of):
     return "repetition-with-first-pass-damage" if d1 else "repetition-only"
 
 
-def _run_calculator(curve, tables):
+def _run_calculator(curve, tables, interleave=False):
     """tables: list of (rows1, rows2) with identical shapes -> arrays n_times, n_cycles (one entry per table)"""
     import pandas as pd
     import pylife.strength.woehler_fkm_nonlinear  # noqa: F401
@@ -467,8 +467,26 @@ def _run_calculator(curve, tables):
             dc = DC.DamageCalculatorPRAM(col, w)
             nt = np.atleast_1d(np.asarray(dc.lifetime_n_times_load_sequence, dtype=float))
             nc = np.atleast_1d(np.asarray(dc.lifetime_n_cycles, dtype=float))
+            if interleave:
+                # two more calculators on the SAME table object: the first is only constructed, then one with a weaker
+                # curve is constructed and asked, then the first is asked - it must answer for its own curve
+                before = (list(col.columns), list(col.index.names), col.to_numpy(dtype=float).tolist())
+                first = DC.DamageCalculatorPRAM(col, w)
+                weaker = dict(curve)
+                weaker["P_RAM_Z"], weaker["P_RAM_D"] = 0.8 * curve["P_RAM_Z"], 0.8 * curve["P_RAM_D"]
+                other = DC.DamageCalculatorPRAM(col, pd.Series(weaker).woehler_P_RAM)
+                np.asarray(other.lifetime_n_times_load_sequence, dtype=float)
+                np.asarray(other.lifetime_n_cycles, dtype=float)
+                nt2 = np.atleast_1d(np.asarray(first.lifetime_n_times_load_sequence, dtype=float))
+                nc2 = np.atleast_1d(np.asarray(first.lifetime_n_cycles, dtype=float))
+                after = (list(col.columns), list(col.index.names), col.to_numpy(dtype=float).tolist())
+                extra = {"same": bool(np.array_equal(nt, nt2, equal_nan=True) and np.array_equal(nc, nc2, equal_nan=True)),
+                         "alone": [nt.tolist(), nc.tolist()], "interleaved": [nt2.tolist(), nc2.tolist()],
+                         "table_untouched": before == after}
     if len(tables) > 1 and nt.shape == (len(tables),) and nc.shape == (len(tables),):
         nt, nc = nt[label], nc[label]
+    if interleave:
+        return nt, nc, extra
     return nt, nc
 
 
@@ -484,9 +502,13 @@ def check_table(tier, fam, r1, r2, batch=None):
     part = "accumulation" if batch is None else "accumulation-batch"
     viol, classes, outcomes = [], [], []
     try:
-        nt, nc = _run_calculator(curve, [(_rows(levels, a), _rows(levels, b)) for a, b in tabs])
+        nt, nc, extra = _run_calculator(curve, [(_rows(levels, a), _rows(levels, b)) for a, b in tabs], interleave=True)
     except Exception as e:
         return [_raised(e, part)], [], []
+    if not extra["same"]:
+        viol.append(("C09/%s/calculator-answers-for-another-curve-after-a-second-calculator-on-the-same-table" % part,
+                     {"pass1": [list(x) for x in tabs[0][0]], "pass2": [list(x) for x in tabs[0][1]], "alone(n_times, n_cycles)": extra["alone"],
+                      "after_other_calculator": extra["interleaved"]}))
     if nt.shape != (len(tabs),) or nc.shape != (len(tabs),):
         return [("C09/%s/result-shape" % part, {"n_times": nt.tolist(), "n_cycles": nc.tolist(), "points": len(tabs)})], [], []
     n_of = _n_of(fam, curve)
@@ -587,6 +609,44 @@ def check_gamma(case):
     return [], got, exp
 
 
+def check_gamma_kept(case):
+    """One kept parameter Series (and one kept load object) asked again and again while P_A, P_L and the scatter are
+    changed in it in place - every answer must be the formula value for the parameters it holds at that moment.
+    case: {part: 'gamma-kept', dist, seq}; the sweep is the case (history dependent by construction)."""
+    import pandas as pd
+    import pylife.strength.fkm_load_distribution  # noqa: F401
+    obj, lmax = _load_obj(case["seq"])
+    dist = case["dist"]
+    skey = "s_L" if dist == "normal" else "LSD_s"
+    sweep = [(pa, pl, s_) for s_ in (S_LS if dist == "normal" else LSD_SS) for pl in P_LS for pa in sorted(ref.BETA_TABLE)]
+    params = pd.Series({"P_A": sweep[0][0], "P_L": sweep[0][1], skey: sweep[0][2]})
+    viol, n = [], 0
+    for step, (pa, pl, s_) in enumerate(sweep):
+        try:
+            params["P_A"], params["P_L"], params[skey] = pa, pl, s_
+            acc_ = obj.fkm_safety_normal_from_stddev if dist == "normal" else obj.fkm_safety_lognormal_from_stddev
+            got = float(acc_.gamma_L(params))
+            # ... and a copy of the used parameters with another scatter value (what a parameter study does)
+            other = params.copy()
+            other[skey] = 0.5 * s_ + 0.01
+            got_other = float(acc_.gamma_L(other))
+        except Exception as e:
+            viol.append(_raised(e, "gamma_L-kept-parameters-" + dist))
+            break
+        n += 2
+        exp = ref.gamma_L_normal(pa, pl, s_, lmax) if dist == "normal" else ref.gamma_L_lognormal(pa, pl, s_)
+        exp_other = ref.gamma_L_normal(pa, pl, 0.5 * s_ + 0.01, lmax) if dist == "normal" else ref.gamma_L_lognormal(pa, pl, 0.5 * s_ + 0.01)
+        for g, e_, what in ((got, exp, "kept"), (got_other, exp_other, "copy")):
+            if not (abs(g - e_) <= 1e-12 * max(1.0, abs(e_))):
+                viol.append(("C09/gamma_L/%s/kept-parameter-series-changed-in-place" % dist,
+                             {"step": step, "asked_with": what, "P_A": pa, "P_L": pl, skey: s_ if what == "kept" else 0.5 * s_ + 0.01,
+                              "got": g, "expected": e_}))
+                break
+        if viol:
+            break
+    return viol, n
+
+
 # =====================================================================================================
 def bounds(tier):
     fams = {}
@@ -600,13 +660,16 @@ def bounds(tier):
             "P_RAM": {"S_a": S_A, "S_m": S_M, "epsilon_a": EPS_A, "groups x R_m": RM_LADDER, "E": E_MODULI},
             "accumulation": fams, "accumulation_batch": bf,
             "beta": {"P_A": "%d log-spaced in [1e-12, 0.5] + tabulated + 4 extra" % (120 if tier == "quick" else 300)},
-            "gamma_L": {"P_A": sorted(ref.BETA_TABLE), "P_L": P_LS, "s_L": S_LS, "LSD_s": LSD_SS, "load objects": list(LOAD_SEQS)}}
+            "gamma_L": {"P_A": sorted(ref.BETA_TABLE), "P_L": P_LS, "s_L": S_LS, "LSD_s": LSD_SS, "load objects": list(LOAD_SEQS),
+                        "kept parameter Series": "the whole P_A x P_L x scatter sweep on ONE parameter Series changed in place (normal, log-normal; Series and mesh frame)"},
+            "accumulation, interleaved": "every table again with two more calculators on the same table object (own curve, weaker curve) - first constructed, second asked, first asked"}
 
 
 def shards(tier):
     out = [("curves", _curve_cases(tier)), ("pram", _pram_cases(tier))]
     out += [("beta", block) for block in chunked(_beta_lattice(tier), 60)]
     out += [("gamma", _gamma_cases(tier))]
+    out += [("gamma-kept", [{"part": "gamma-kept", "dist": d, "seq": q} for d in ("normal", "lognormal") for q in ("series-pos", "frame-nodes")])]
     out += _acc_shards(tier)
     return out
 
@@ -662,6 +725,15 @@ def run_shard(shard):
             acc.outcome(got)
             for key, detail in viol:
                 acc.violation(key, case, detail)
+    elif kind == "gamma-kept":
+        for case in shard[1]:
+            acc.cases += 1
+            acc.nontrivial += 1
+            viol, n = check_gamma_kept(case)
+            acc.evaluations += n
+            acc.count("gamma_L_kept_parameter_sweeps")
+            for key, detail in viol:
+                acc.violation(key, case, detail)
     elif kind == "acc":
         _, tier, fam, block = shard
         for r1, r2 in block:
@@ -713,6 +785,8 @@ def replay(case):
         return check_beta(case["P_A"])[0]
     if part == "gamma":
         return check_gamma(case)[0]
+    if part == "gamma-kept":
+        return check_gamma_kept(case)[0]
     if part == "acc":
         return check_table(case["tier"], case["family"], _tup(case["r1"]), _tup(case["r2"]))[0]
     if part == "accbatch":
